@@ -1,12 +1,38 @@
 (* OblC02.v — generated-table obligations for the encoders (C02, C09); compiled on every run. *)
-From NV Require Import Base Bits Defn PyNum Fields Dispatch Template TemplateEnc.
-From NVGen Require Import GenDb GenCode.
+From NV Require Import Base Bits Defn PyNum Fields Dispatch Template TemplateEnc Encode Spec SpecProofs EncodeProofs.
+From NVGen Require Import GenDb GenCode GenLookups.
 
 Definition db_groups : list (list dbdef) := groups db_defs.
+Definition enc_defs : list dbdef := filter encodable (flat_map bound_defs db_groups).
 
 (* every generated encoder equals, step by step (field id, conversion kind, bit length, signedness,
    resolution, mask, shift, serialised length), the encoder template of its database record *)
 Theorem C02_tables : forallb (group_edefs_ok code_enc) db_groups = true.
 Proof. vm_compute. reflexivity. Qed.
 
-Eval vm_compute in (length (flat_map bound_defs db_groups), length (filter encodable (flat_map bound_defs db_groups))).
+(* side conditions on all encodable definitions: offsets >= 0, lengths >= 1, fields pairwise
+   disjoint and inside the definition's length; no signed number/date/time field of <= 3 bits *)
+Definition no_small_signed (d : dbdef) : bool :=
+  forallb (fun f => negb (f_signed f) || match f_bitlen f with Some l => 4 <=? l | None => true end) (d_fields d).
+Theorem C02_side : forallb (fun d => layout_ok d && no_small_signed d) enc_defs = true.
+Proof. vm_compute. reflexivity. Qed.
+
+(* C02/C09 at the payload level for the code of this run: every encodable definition, every message *)
+Theorem C02_bits : forall g d, In g db_groups -> In d (bound_defs g) -> encodable d = true ->
+  exists ce, find_fname (fname_of g d) code_enc = Some ce /\ e_length ce = d_length d /\
+    forall mf x, run_esteps code_enc_lookups 0 (e_steps ce) mf = Ok x ->
+      exists vs, enc_vals code_enc_lookups (d_fields d) mf = Ok vs /\ layout_of vs = db_layout (d_fields d) /\
+        forall v off len, In (v, off, len) vs -> decode_int x off len = v mod 2 ^ len.
+Proof.
+  intros g d Hg Hd En. apply edef_ok_sound; [|exact En|].
+  - pose proof C02_tables as T. rewrite forallb_forall in T. specialize (T g Hg).
+    unfold group_edefs_ok in T. rewrite forallb_forall in T. apply T. exact Hd.
+  - pose proof C02_side as S. rewrite forallb_forall in S.
+    assert (I : In d enc_defs).
+    { unfold enc_defs. apply filter_In. split; [|exact En]. apply in_flat_map. exists g. tauto. }
+    specialize (S d I). apply andb_true_iff in S. tauto.
+Qed.
+Print Assumptions C02_bits.
+
+Eval vm_compute in (length (flat_map bound_defs db_groups), length enc_defs,
+                    length (flat_map d_fields enc_defs)).
